@@ -7,6 +7,10 @@
 #include <set>
 
 #include "oracle.hpp"
+#include <sys/wait.h>
+#include <unistd.h>
+static const unsigned FEAT_BUDGET_S = 3;
+static const unsigned CASE_BUDGET_S = 40;
 #include "libfive/render/brep/mesh.hpp"
 #include "libfive/render/brep/region.hpp"
 #include "libfive/render/brep/settings.hpp"
@@ -113,13 +117,45 @@ int main(int argc, char** argv) {
     auto ref = [&](float x, float y, float z) {
         RefEval re;
         re.vars = &P.varByNode;
-        return re.at(rootP, x, y, z);
+        auto d = re.at(rootP, x, y, z);
+        // a NaN sub-expression anywhere: min/max/nanfill with a NaN operand have no defined gradient and their
+        // value depends on operand order (which the optimiser chooses by address) -> no gradient bound
+        if (re.sawNan) for (auto& dd : d.d) dd.e = INFINITY;
+        return d;
     };
 
+    bool inChild = false;
     while (std::getline(in, line)) {
         auto w = split(line);
         if (w.empty()) continue;
         forceRoundNearest();
+        if (w[0] == "case" && !inChild) {
+            // every case runs in a forked child under an alarm: feature enumeration, tape pushes and meshing of
+            // pathological generated trees (deeply nested remaps mentioning the oracle again) can take minutes;
+            // a case that does not finish is dropped ("caseskip") and counted, never judged
+            std::cout.flush();
+            pid_t pid = fork();
+            if (pid != 0) {
+                int status = 0;
+                waitpid(pid, &status, 0);
+                if (!(WIFEXITED(status) && WEXITSTATUS(status) == 0))
+                    std::cout << "caseskip " << (w.size() > 1 ? w[1] : "?") << " "
+                              << (WIFSIGNALED(status) ? WTERMSIG(status) : -1) << "\n";
+                std::cout.flush();
+                while (true) {
+                    std::streampos pos = in.tellg();
+                    if (!std::getline(in, line)) break;
+                    auto ww = split(line);
+                    if (!ww.empty() && ww[0] == "case") { in.seekg(pos); break; }
+                }
+                continue;
+            }
+            inChild = true;
+            alarm(CASE_BUDGET_S);
+        } else if (w[0] == "case" && inChild) {
+            std::cout.flush();
+            _exit(0);
+        }
         if (w[0] == "case") {
             L.enabled = false;
             evO.reset(); evP.reset(); stack.clear(); stackId.clear(); deck.reset();
@@ -249,20 +285,38 @@ int main(int argc, char** argv) {
             }
             std::cout << "\n";
         } else if (w[0] == "feat") {
+            // Feature enumeration can blow up combinatorially (nested remaps whose coordinates mention the
+            // oracle again make many exactly tied min/max clauses): run the query in a forked child under an
+            // alarm; a query that does not finish is skipped and counted ("featskip"), never judged.
             Eigen::Vector3f p = p3(w, 1);
-            std::cout << "tr begin feat " << curId() << " " << (stack.back()->isTerminal() ? 1 : 0) << "\n";
-            auto fo = evO->features(p, stack.back());
-            flushEvents();
-            std::cout << "tr end feat\n";
-            unboundLine();
-            auto fp = evP->features(p);
-            auto d = ref(p.x(), p.y(), p.z());
-            std::cout << "feat " << h3(p) << " " << (d.amb ? 1 : 0) << " " << efStr(d.v) << " " << efStr(d.d[0]) << " "
-                      << efStr(d.d[1]) << " " << efStr(d.d[2]) << " o " << fo.size();
-            for (auto& f : fo) std::cout << " " << h3(f);
-            std::cout << " p " << fp.size();
-            for (auto& f : fp) std::cout << " " << h3(f);
-            std::cout << "\n";
+            std::cout.flush();
+            pid_t pid = fork();
+            if (pid == 0) {
+                alarm(FEAT_BUDGET_S);
+                std::ostringstream os;
+                auto* old = std::cout.rdbuf(os.rdbuf());
+                std::cout << "tr begin feat " << curId() << " " << (stack.back()->isTerminal() ? 1 : 0) << "\n";
+                auto fo = evO->features(p, stack.back());
+                flushEvents();
+                std::cout << "tr end feat\n";
+                unboundLine();
+                auto fp = evP->features(p);
+                auto d = ref(p.x(), p.y(), p.z());
+                std::cout << "feat " << h3(p) << " " << (d.amb ? 1 : 0) << " " << efStr(d.v) << " " << efStr(d.d[0]) << " "
+                          << efStr(d.d[1]) << " " << efStr(d.d[2]) << " o " << fo.size();
+                for (auto& f : fo) std::cout << " " << h3(f);
+                std::cout << " p " << fp.size();
+                for (auto& f : fp) std::cout << " " << h3(f);
+                std::cout << "\n";
+                std::cout.rdbuf(old);
+                std::cout << os.str();
+                std::cout.flush();
+                _exit(0);
+            }
+            int status = 0;
+            waitpid(pid, &status, 0);
+            if (!(WIFEXITED(status) && WEXITSTATUS(status) == 0))
+                std::cout << "featskip " << h3(p) << " " << (WIFSIGNALED(status) ? WTERMSIG(status) : -1) << "\n";
         } else if (w[0] == "ipush") {
             Eigen::Vector3f lo = p3(w, 1), hi = p3(w, 4);
             std::cout << "tr begin ipush " << curId() << " " << (stack.back()->isTerminal() ? 1 : 0) << "\n";
@@ -322,7 +376,8 @@ int main(int argc, char** argv) {
                 // gradient not unique at this point (tie / kink anywhere in the composite)?
                 RefEval re;
                 auto d = re.at(tp.remap(X, Y, Z), p.x(), p.y(), p.z());
-                std::cout << " " << (d.amb ? 1 : 0);
+                // ... or some sub-expression undefined (NaN) there: min/max with a NaN operand have no gradient
+                std::cout << " " << ((d.amb || re.sawNan) ? 1 : 0);
             }
             std::cout << "\n";
             L.enabled = true;
@@ -345,5 +400,6 @@ int main(int argc, char** argv) {
         }
         std::cout.flush();
     }
+    if (inChild) { std::cout.flush(); _exit(0); }
     return 0;
 }
